@@ -606,6 +606,8 @@ func scenarios() {
 		case "closeearly":
 			s.Body = scCloseEarly(f[1])
 			s.End = func(x *vs.Exec) string { return strings.Join(x.Obs, "\n") }
+		case "handoff":
+			s.Body = scHandoff(f[1])
 		case "vbusy":
 			s.Body = scVisitorBusy(f[1])
 			s.End = func(x *vs.Exec) string { return strings.Join(x.Obs, "\n") }
@@ -748,6 +750,49 @@ func scVisitorBusy(kind string) func(x *vs.Exec) {
 	}
 }
 
+// handoff: one user routed by the CONNECT muxer, one thread that closes the proxy (or cuts its session) — the small version
+// of storm 6, in which every interleaving of the hand-off with the close is within two deviations.
+func scHandoff(how string) func(x *vs.Exec) {
+	return func(x *vs.Exec) {
+		defer sw.Guard()
+		w := newWorld(x)
+		a := w.MustLogin("a", sw.LoginOpt{User: "ua"})
+		a.AutoWork()
+		if r := a.Reg(&msg.NewProxy{ProxyName: "ma", ProxyType: "tcpmux", Multiplexer: "httpconnect", CustomDomains: []string{"ma.example.com"}}); !strings.HasPrefix(r, "ok") {
+			vs.Fail("setup: %s", r)
+			return
+		}
+		w.Quiesce()
+		var wg sync.WaitGroup
+		wg.Add(2)
+		vs.SetInterest(true)
+		go func() {
+			defer wg.Done()
+			u, e := w.ConnectMux("10.6.8.1:71", "ma.example.com", "")
+			vs.Observe("user served: %v", e == "")
+			if u != nil {
+				u.Close()
+			}
+		}()
+		go func() {
+			defer wg.Done()
+			if how == "cut" {
+				a.Cut()
+			} else {
+				a.CloseProxy("ma")
+			}
+		}()
+		wg.Wait()
+		w.Quiesce()
+		vs.SetInterest(false)
+		time.Sleep(30 * time.Second)
+		w.Teardown()
+		if d := w.Dump(); d != w.Base {
+			vs.Fail("after the hand-off race and teardown server state is not the initial one:\n%s", d)
+		}
+	}
+}
+
 // ilisten: the in-process listener that hands visitor connections, ssh tunnels and virtual clients to their owner
 // (InternalListener): connections are put while the owner accepts and closes, in every order.
 type dummyConn struct {
@@ -813,7 +858,7 @@ func main() {
 	if c == nil {
 		return
 	}
-	c.Rule("E1: (a) all single-field deviations over extreme-value alphabets (negative / huge integers, empty / 9000-char / control-character strings, nil / empty / 300-entry maps, nil / empty / 1000-entry lists, malformed addresses) of all 18 message types (NewProxy for all 8 proxy types) sent to the real frps as first message of a connection and on an established session, and of the server-to-client types sent by a model server to the real frpc; (a2) malformed user-side input on the tcpmux CONNECT port (14 Proxy-Authorization shapes x 2 hosts, 14 malformed request heads) and on the https port (a real ClientHello with each of its first 80 bytes set to 0xff / 0x00 or truncated there); after each case a bystander session, its tunnel, a fresh login and a fresh tunnel must work, no managed thread may have panicked (= process crash) and none may be stuck after teardown; (b) seven concurrent mixed-traffic storms, the statistics collector of the dashboard switched on (registration / closure / groups / session cut; secret proxies, visitors and NAT-hole messages against closing proxies; re-login with work connections for dying sessions; user connections waiting for a work connection while the session is cut; NAT-hole sessions of two visitors starting, being answered and ending together; two users' traffic through two proxies while a third proxy comes and goes; users routed by the CONNECT muxer handed to their proxy's listener while that proxy closes / its session is cut) and the control connection's request/response lanes with duplicated, late and too-late answers, and the in-process listener (two puts, an accepting owner, a close) (3 deviations each), a client that is stopped while it logs in or right after (2 deviations), a visitor of each kind whose bind port is busy (1 deviation), under all schedules with at most B deviations (two default orders) with the happens-before detector on every struct-field map of the instrumented packages; non-trivial = distinct (position, type, field, value)")
+	c.Rule("E1: (a) all single-field deviations over extreme-value alphabets (negative / huge integers, empty / 9000-char / control-character strings, nil / empty / 300-entry maps, nil / empty / 1000-entry lists, malformed addresses) of all 18 message types (NewProxy for all 8 proxy types) sent to the real frps as first message of a connection and on an established session, and of the server-to-client types sent by a model server to the real frpc; (a2) malformed user-side input on the tcpmux CONNECT port (14 Proxy-Authorization shapes x 2 hosts, 14 malformed request heads) and on the https port (a real ClientHello with each of its first 80 bytes set to 0xff / 0x00 or truncated there); after each case a bystander session, its tunnel, a fresh login and a fresh tunnel must work, no managed thread may have panicked (= process crash) and none may be stuck after teardown; (b) seven concurrent mixed-traffic storms, the statistics collector of the dashboard switched on (registration / closure / groups / session cut; secret proxies, visitors and NAT-hole messages against closing proxies; re-login with work connections for dying sessions; user connections waiting for a work connection while the session is cut; NAT-hole sessions of two visitors starting, being answered and ending together; two users' traffic through two proxies while a third proxy comes and goes; users routed by the CONNECT muxer handed to their proxy's listener while that proxy closes / its session is cut; the two-thread version of that hand-off with 2 deviations) and the control connection's request/response lanes with duplicated, late and too-late answers, and the in-process listener (two puts, an accepting owner, a close) (3 deviations each), a client that is stopped while it logs in or right after (2 deviations), a visitor of each kind whose bind port is busy (1 deviation), under all schedules with at most B deviations (two default orders) with the happens-before detector on every struct-field map of the instrumented packages; non-trivial = distinct (position, type, field, value)")
 	pool := vs.GetPool(c.Workers)
 	var names []string
 	wdummy := map[string]msg.Message{}
@@ -893,6 +938,9 @@ func main() {
 		c.ExploreBoth("lane|"+v, 3, 0.25)
 	}
 	c.ExploreBoth("ilisten", 3, 0.5)
+	for _, h := range []string{"close", "cut"} {
+		c.ExploreBoth("handoff|"+h, 2, 0.3)
+	}
 	for _, k := range []string{"stcp", "sudp", "xtcp"} {
 		c.ExploreBoth("vbusy|"+k, 1, 0.3)
 	}
